@@ -474,8 +474,8 @@ class Beam(_Simu):
 
     def Save_Iter(self, iter=None):
 
-        if iter is None:
-            iter = {}
+        # never write into the dict of the caller (it may be reused from step to step)
+        iter = {} if iter is None else iter.copy()
 
         iter["displacement"] = self.displacement
 
